@@ -29,8 +29,22 @@ import (
 )
 
 type agg struct {
-	mu  sync.Mutex
-	res *vh.Result
+	mu   sync.Mutex
+	res  *vh.Result
+	seen map[string]bool // distinct non-trivial cases
+}
+
+// nontrivialCase counts a non-trivial case once (distinct by key).
+func (a *agg) nontrivialCase(key string) {
+	a.mu.Lock()
+	if a.seen == nil {
+		a.seen = map[string]bool{}
+	}
+	if !a.seen[key] {
+		a.seen[key] = true
+		a.res.Counters["nontrivial"]++
+	}
+	a.mu.Unlock()
 }
 
 func (a *agg) violate(sig, desc, beh string, step int) {
@@ -294,8 +308,24 @@ func replayOne(b vh.Behaviour, a *agg) {
 		}
 		err, _ := n.deliver(blk, false)
 		if err != nil {
+			// cli/operator/node.go ends in logger.Fatal on any handler error: the node restarts on the same
+			// database and resumes after the recorded last processed block
+			a.count("handler_errors", 1)
 			a.diverge(b.ID, step, "handler-error", nil, err.Error())
-			return false
+			n.tasks.take()
+			n2, berr := boot(raw, nil)
+			if berr != nil {
+				a.violate("restart-differs", "after a handler error no node can be booted on the database: "+berr.Error(), b.ID, step)
+				return false
+			}
+			n = n2
+			if n.lastProcessed() < num {
+				if err2, _ := n.deliver(blk, false); err2 != nil {
+					a.violate("registry-differs-from-rules:block-refused", fmt.Sprintf("block %d of well-formed contract logs is refused with an error, also after a restart (%v; %v): the registry can never become what the rules prescribe; block=%s",
+						num, err, err2, chainString([]blockT{blk})), b.ID, step)
+					return false
+				}
+			}
 		}
 		tasks, exits := n.tasks.take()
 		for _, v := range exits {
@@ -389,7 +419,7 @@ func replayOne(b vh.Behaviour, a *agg) {
 	a.count("steps", steps)
 	chain := chainOf(b)
 	if nontrivial(chain) {
-		a.count("nontrivial", 1)
+		a.nontrivialCase(chainString(chain))
 	}
 	// --- batching independence, real vs real: the same events, one per block ---
 	if multi {
@@ -649,6 +679,7 @@ func crashOne(b vh.Behaviour, a *agg) {
 	}
 	if err != nil {
 		a.diverge(b.ID, 0, "clean-run", nil, err.Error())
+		a.count("clean_run_failed", 1)
 		return
 	}
 	// conformance of the model-visible operations: the clean run's operations vs the spec's effects
@@ -679,7 +710,7 @@ func crashOne(b vh.Behaviour, a *agg) {
 		return
 	}
 	if nontrivial(chain) {
-		a.count("nontrivial", 1)
+		a.nontrivialCase(chainString(chain) + fmt.Sprint(plan))
 	}
 	out := runFaulty(chain, plan, true)
 	if out.swallowed {
@@ -715,6 +746,7 @@ func faultsOne(id string, chain []blockT, a *agg, rng *rand.Rand, double int, wr
 			releaseDB(n0.raw)
 		}
 		a.diverge(id, 0, "clean-run", nil, err.Error())
+		a.count("clean_run_failed", 1)
 		return
 	}
 	ops := append([]opRec{}, inj.log...)
@@ -738,9 +770,6 @@ func faultsOne(id string, chain []blockT, a *agg, rng *rand.Rand, double int, wr
 		a.note(id + ": operations of the clean run after the setup block: " + strings.Join(ks, ", "))
 	}
 	a.count("chains", 1)
-	if nontrivial(chain) {
-		a.count("nontrivial", 1)
-	}
 	for k := 1; k <= len(ops); k++ {
 		for _, mode := range []string{"crash", "fail"} {
 			if writesOnly && !ops[k-1].Write {
@@ -754,6 +783,9 @@ func faultsOne(id string, chain []blockT, a *agg, rng *rand.Rand, double int, wr
 			out := runFaulty(chain, plan, false)
 			judgeFaulty(a, id, chain, clean, plan, out, k)
 			a.count("fault_points", 1)
+			if nontrivial(chain) {
+				a.nontrivialCase(fmt.Sprintf("%s %s@%d", chainString(chain), mode, k))
+			}
 		}
 	}
 	// second fault during the resumed incarnation
